@@ -107,6 +107,8 @@ impl CaseKind for ChainCase {
 pub enum Case11 {
     H(HistCase),
     C(ChainCase),
+    /// the inner case after a battery of refused calls (among them a pass that panics) on other arrays in the same thread
+    P(HistCase),
 }
 impl CaseKind for Case11 {
     const KIND: &'static str = "c11";
@@ -114,18 +116,29 @@ impl CaseKind for Case11 {
         match self {
             Case11::H(c) => c.size(),
             Case11::C(c) => c.size(),
+            Case11::P(c) => c.size() + 1,
         }
     }
     fn sample(&self) -> Value {
         match self {
             Case11::H(c) => c.sample(),
             Case11::C(c) => c.sample(),
+            Case11::P(c) => json!({"after-refused-calls": c.sample()}),
         }
     }
     fn run(&self) -> Outcome {
         match self {
             Case11::H(c) => c.run(),
             Case11::C(c) => c.run(),
+            Case11::P(c) => {
+                crate::exec::refused_calls_battery();
+                let mut o = c.run();
+                if let Verdict::Fail(f) = &mut o.verdict {
+                    f.signature = format!("{}:after-refused-calls", f.signature);
+                    f.detail = format!("after a battery of refused calls on other arrays in the same thread: {}", f.detail);
+                }
+                o
+            }
         }
     }
 }
@@ -143,7 +156,7 @@ pub fn dispatch(kind: &str, v: &Value) -> Option<Outcome> {
 pub fn custom_cfg(t: Tier, exact: bool) -> GenCfg {
     use Kind::*;
     let mut cfg = GenCfg::programs(exact);
-    cfg.kinds = vec![(Custom, 34), (Binary, 22), (Leaf, 8), (Unary, 8), (SumReshape, 5), (Matmul, 4), (Rebind, 4), (CloneH, 3), (Backward, 6), (DropH, 2), (IfGt, 2), (Flag, 5), (Retrack, 4)];
+    cfg.kinds = vec![(Custom, 34), (Binary, 22), (Leaf, 8), (Unary, 8), (SumReshape, 5), (Matmul, 4), (Rebind, 4), (CloneH, 3), (Backward, 6), (DropH, 2), (IfGt, 2), (Flag, 5), (Retrack, 4), (Refused, 2)];
     cfg.flag_results = true;
     cfg.max_steps = t.pick(16, 44);
     cfg.max_elems = t.pick(32, 100);
@@ -163,6 +176,12 @@ pub fn campaigns(ctx: &Ctx) -> Stats {
                 let name = format!("all-dags-{}-leaves-{}-nodes", leaves, n);
                 st.merge(ctx.run_indexed(&name, cnt * 2, Some(&format!("all {} DAGs with {} leaf/leaves and {} custom-operation nodes (each node takes one operand or an ordered pair among all earlier nodes), root = last node, backward(None) and backward(seed)", cnt, leaves, n)), |i| dag(leaves, n, i / 2, (i % 2) as u8).map(|h| Case11::H(HistCase { oracle: "c11".into(), hist: h }))));
             }
+        }
+        // the same small DAGs after refused calls (a pass that panics among them) on other arrays in the same thread
+        for leaves in 1..=2usize {
+            let n = 3;
+            let cnt = dag_count(leaves, n);
+            st.merge(ctx.run_indexed(&format!("all-dags-{}-leaves-{}-nodes-after-refused-calls", leaves, n), cnt, None, |i| dag(leaves, n, i, (i % 2) as u8).map(|h| Case11::P(HistCase { oracle: "c11".into(), hist: h }))));
         }
         {
             let fan = crate::scale::fan_in_cases("c11", t == Tier::Thorough);
